@@ -208,7 +208,10 @@ func scenarioC02(r *Run) {
 	}
 	// every position whose pre-conditions hold must have been reached
 	// (recording verifiers accept without looking, so nothing stops early)
-	if rv, e := RefVerdict(spec.Kind, received, keysOf(spec), external, override); e == nil && verr == nil || e == nil {
+	// (for messages that conform to the header rules: what a decoder does with
+	// a malformed one that it lets through - e.g. a label under tag 55799,
+	// known finding of C05 - is not this property's question)
+	if rv, e := RefVerdict(spec.Kind, received, keysOf(spec), external, override); e == nil && refcose.WellFormed(spec.Kind, received) == nil {
 		for i, s := range spies {
 			if i >= len(rv) {
 				break
